@@ -1,11 +1,13 @@
 package c07
 
 import (
+	"strings"
 	"testing"
 	"time"
 
 	"go.lstv.dev/util/date"
 
+	"verifharness/ref"
 	"verifharness/vkit"
 )
 
@@ -33,8 +35,29 @@ var coldFirst = map[string]func(){
 	"string of the zero date": func() { _ = date.Date{}.String() },
 }
 
+func init() {
+	for _, z := range []string{"Pacific/Apia", "America/Sao_Paulo", "America/Havana", "Asia/Beirut", "America/Asuncion", "Africa/Cairo", "Pacific/Kiritimati", "America/Santiago"} {
+		coldFirst["tz="+z+"; time of a skipped day"] = func() { _ = date.New(2011, 12, 30).Time() }
+	}
+}
+
 func TestColdStart(t *testing.T) {
 	vkit.ColdMain(t, "C07", coldFirst, func(w *vkit.W) {
+		if strings.HasPrefix(vkit.ColdScenario(), "tz=") {
+			for _, y := range []int64{1994, 2011, 2013, 2014, 2018, 2019} {
+				for m := 1; m <= 12; m++ {
+					for d := 1; d <= ref.DaysIn(y, m); d++ {
+						a := YMD{y, m, d}
+						judge(Case{Kind: "time", A: a}, w)
+						judge(Case{Kind: "pair", A: a, B: civil(a.ord() + 1)}, w)
+						judge(Case{Kind: "add", A: a, Days: 1}, w)
+						judge(Case{Kind: "add", A: a, Months: 1}, w)
+						judge(Case{Kind: "adddur", A: a, Dur: int64(24 * time.Hour)}, w)
+						judge(Case{Kind: "pair", A: a, B: civil(a.ord() + 1), Route: 3}, w)
+					}
+				}
+			}
+		}
 		pts := []YMD{{1, 1, 1}, {1, 1, 2}, {1, 12, 31}, {2, 1, 1}, {0, 12, 31}, {-1, 1, 1}, {1969, 12, 31}, {1970, 1, 1}, {1970, 1, 2}, {2000, 2, 29}, {2000, 3, 1}, {2024, 2, 29}, {2100, 2, 28}, {9999, 12, 31}}
 		for _, a := range pts {
 			judge(Case{Kind: "time", A: a}, w)
